@@ -214,3 +214,32 @@ func listPrefix(p []seg) (string, int) {
 	}
 	return "", 0
 }
+
+// sectionVars renders a configuration as one environment variable per top-level key whose value is
+// the whole section as JSON. The loader types environment values with a YAML parser, so a flow
+// mapping/sequence becomes a sub-tree. This form is not part of the documented naming rules; it is a
+// way through the real loader that involves neither the file schema nor list reconstruction.
+func sectionVars(tree map[string]any) []envLeaf {
+	keys := make([]string, 0, len(tree))
+	for k := range tree {
+		keys = append(keys, k)
+	}
+	sort.Strings(keys)
+	var out []envLeaf
+	for _, k := range keys {
+		var val string
+		switch t := tree[k].(type) {
+		case map[string]any, []any:
+			b, err := json.Marshal(t)
+			if err != nil {
+				panic(err)
+			}
+			val = string(b)
+		default:
+			val = envValue(t, false)
+		}
+		p := []seg{{K: k}}
+		out = append(out, envLeaf{p, envVar{envName(p), val}})
+	}
+	return out
+}
